@@ -625,8 +625,9 @@ func (c *Cluster) CreateSetting(ns, name, ref, sel, res string, byExpr bool, cre
 	switch {
 	case sel == "!bad":
 		s.Spec.NodeSelector = metav1.LabelSelector{MatchExpressions: []metav1.LabelSelectorRequirement{{Key: GroupLabel, Operator: "BadOp", Values: []string{"x"}}}}
-	case byExpr:
-		s.Spec.NodeSelector = metav1.LabelSelector{MatchExpressions: []metav1.LabelSelectorRequirement{{Key: GroupLabel, Operator: metav1.LabelSelectorOpIn, Values: []string{sel}}}}
+	case byExpr || strings.Contains(sel, "+"):
+		// "g1+g2": the nodes of either group (partial overlaps between settings need selectors that are not all-or-nothing)
+		s.Spec.NodeSelector = metav1.LabelSelector{MatchExpressions: []metav1.LabelSelectorRequirement{{Key: GroupLabel, Operator: metav1.LabelSelectorOpIn, Values: strings.Split(sel, "+")}}}
 	default:
 		s.Spec.NodeSelector = metav1.LabelSelector{MatchLabels: map[string]string{GroupLabel: sel}}
 	}
@@ -634,6 +635,13 @@ func (c *Cluster) CreateSetting(ns, name, ref, sel, res string, byExpr bool, cre
 		s.Spec.Containers = []edsv1.ExtendedDaemonsetSettingContainerSpec{{Name: MainContainer, Resources: r}}
 	}
 	return c.base.Create(bg, s)
+}
+
+// settingInstant is the creation instant of a setting created `age` units before the virtual now.  It is anchored at the start
+// of the cluster (not at the wall clock) so that settings created in the same virtual instant carry the same timestamp: the
+// controller breaks such ties by name, and a tie must not depend on the wall-clock second in which the harness happened to run.
+func (c *Cluster) settingInstant(age int) time.Time {
+	return time.Unix(c.startUnix+1, 0).Add(-time.Duration(age) * Unit)
 }
 
 // DeleteSetting removes a setting.
